@@ -234,13 +234,21 @@ def main(ctx):
     cases = os.path.join(ctx.scratch, "cases.ndjson")
     with open(cases, "wb") as f:
         ctx.run([pb, "examples"], stdout=f)
-        ctx.run([pb, "cover", "-states", sts] + (["-light"] if ctx.quick else []), stdout=f)
+        # quick: class representatives everywhere + all 256 bytes from the states of depth <= 1;
+        # thorough: the full expansion (256 bytes, embeddings, confusion continuations) up to depth 2, class representatives at depth 3
+        allst = verif.read_ndjson(sts)
+        deep = os.path.join(ctx.scratch, "deep.ndjson")
+        shallow = os.path.join(ctx.scratch, "shallow.ndjson")
+        cut = 1 if ctx.quick else 2
+        verif.write_ndjson(shallow, [s for s in allst if s["depth"] <= cut])
+        verif.write_ndjson(deep, [s for s in allst if s["depth"] > cut])
         if ctx.quick:
-            # all 256 bytes from the depth-0/1 part of the cover: done by a second pass over the shallow states
-            shallow = os.path.join(ctx.scratch, "shallow.ndjson")
-            verif.write_ndjson(shallow, [s for s in verif.read_ndjson(sts) if s["depth"] <= 1])
+            ctx.run([pb, "cover", "-states", sts, "-light"], stdout=f)
             ctx.run([pb, "cover", "-states", shallow, "-bytes"], stdout=f)
-        ctx.run([pb, "random", "-n", "4000" if ctx.quick else "80000"], stdout=f)
+        else:
+            ctx.run([pb, "cover", "-states", shallow], stdout=f)
+            ctx.run([pb, "cover", "-states", deep, "-light"], stdout=f)
+        ctx.run([pb, "random", "-n", "4000" if ctx.quick else "60000"], stdout=f)
     # (c) run the real readers, TLC judges
     recs = judge(ctx, cases)
     for r in recs:
